@@ -41,6 +41,7 @@ MANIFEST = dict(
 )
 
 NEGS = ["earlystart", "cancelonanyend"]
+GROUP_NEG = "StartupGroups_neg_droptail"
 
 
 def run(tier, v):
@@ -58,10 +59,13 @@ def run(tier, v):
     pc.negatives_join(negs)
     b = vlib.harness_build()
     d = vlib.scratch()
+    gr, gpath = pc.groups(d)
+    states += gr.distinct
+    trans += gr.generated
     if thorough:
         table = {k: x for k, x in table.items() if len(set(x["cfg"]["startup"])) > 1 or x["cfg"]["n"] == 3}
     rows_c, rows_t, validated, tstates, cstat, corrupted = pc.both(
-        v, PID, b, d, table, 3 if thorough else 2, "c12", 2000 if thorough else 150, enum="c12enum")
+        v, PID, b, d, table, 3 if thorough else 2, "c12", 2000 if thorough else 150, enum="c12enum", groups_path=gpath)
     runs_t = sorted({r["run"] for r in rows_t})
     ends = [r for r in rows_t if r["ev"] == "end"]
     confs = {r["run"]: r for r in rows_t if r["ev"] == "conf"}
@@ -70,7 +74,9 @@ def run(tier, v):
         "traces_validated_against_impl": validated,
         "trace_events": len(rows_c) + len(rows_t), "trace_states": tstates,
         "random_configurations": len([x for x in runs_t if x < 1000000]),
-        "enumerated_startup_configurations": len([x for x in runs_t if x >= 1000000]),
+        "enumerated_startup_configurations": len([x for x in runs_t if 1000000 <= x < 3000000]),
+        "nested_group_profiles_from_tlc": len([x for x in runs_t if x >= 3000000]),
+        "runs_with_nested_composites": len([c for c in confs.values() if any(i["ctor"] == "composite" for i in c["sdesc"])]),
         "runs_via_config_decoding": len([r for r in rows_t if r["ev"] == "conf" and "viaconf=true" in r["desc"]]),
         "runs_start_cut_short": len([e for e in ends if e["created"] < confs[e["run"]]["n_impl"]]),
         "runs_all_tokens_started": len([e for e in ends if e["created"] == confs[e["run"]]["n_impl"]]),
@@ -78,7 +84,7 @@ def run(tier, v):
         "runs_with_known_start_instant": len([c for c in confs.values() if c["explicit"]]),
         "samples": [pc.sample_of(rows_t, x) for x in runs_t[:2]] + [pc.sample_of(rows_c, 0)],
         "corrupted_traces_rejected": corrupted,
-        "negative_controls": NEGS, "design_configs": cfgs,
+        "negative_controls": NEGS + [GROUP_NEG], "design_configs": cfgs + ["StartupGroups_exh.cfg"],
         "exhaustive": False,
     }
     cov.update(cstat)
